@@ -240,6 +240,11 @@ func fromURL(u *url.URL) (*fsCache, error) {
 	if v := query.Get("timeout"); v != "" {
 		opts = append(opts, WithTimeout(parseTimeout(v)))
 	}
+	// Contradictory values must not be resolved silently: the one that is dropped may be the one
+	// that asks for encryption.
+	if len(query["encrypt"]) > 1 {
+		return nil, fmt.Errorf("fscache: the encrypt parameter is given %d times", len(query["encrypt"]))
+	}
 	switch encrypt := query.Get("encrypt"); encrypt {
 	case "on", "aesgcm":
 		key := cmp.Or(query.Get("encrypt_key"), os.Getenv("FSCACHE_ENCRYPT_KEY"))
